@@ -1,0 +1,365 @@
+//! Verification hooks. Compiled only with `--cfg roxmltree_verif`.
+//!
+//! Nothing in here changes the behaviour of the crate: the hooks only expose
+//! internal state (the raw node arena, the classification predicates, the
+//! tokens delivered to the tree builder) to an external verification harness.
+
+#![allow(missing_docs)]
+#![allow(missing_debug_implementations)]
+
+use std::cell::{Cell, RefCell};
+use std::string::String;
+use std::vec::Vec;
+
+use crate::tokenizer::{self, ElementEnd, Token};
+use crate::{Document, NodeKind, StringStorage};
+
+// ----------------------------------------------------------------------------------------
+// Classification predicates.
+
+/// bit 0: NameStartChar, bit 1: NameChar, bit 2: Char (as the tokenizer sees them).
+pub fn char_class(c: char) -> u8 {
+    tokenizer::verif_char_class(c)
+}
+
+/// bit 0: space, bit 1: NameStartChar, bit 2: NameChar, bit 3: Char (byte-level predicates).
+pub fn byte_class(b: u8) -> u8 {
+    tokenizer::verif_byte_class(b)
+}
+
+// ----------------------------------------------------------------------------------------
+// Raw dump of a document.
+
+#[derive(Clone, Debug, PartialEq, Eq)]
+pub enum RawStr {
+    /// A slice of the input text: byte offset and length.
+    In(usize, usize),
+    /// A string that does not point into the input text.
+    Out(Vec<u8>),
+}
+
+#[derive(Clone, Debug, PartialEq, Eq)]
+pub enum RawStorage {
+    Borrowed(RawStr),
+    Owned(Vec<u8>),
+}
+
+#[derive(Clone, Debug)]
+pub enum RawKind {
+    Root,
+    Element {
+        ns: Option<u16>,
+        local: RawStr,
+        attrs: (u32, u32),
+        nss: (u32, u32),
+    },
+    PI {
+        target: RawStr,
+        value: Option<RawStr>,
+    },
+    Comment(RawStorage),
+    Text(RawStorage),
+}
+
+#[derive(Clone, Debug)]
+pub struct RawNode {
+    pub parent: Option<u32>,
+    pub prev_sibling: Option<u32>,
+    pub next_subtree: Option<u32>,
+    pub last_child: Option<u32>,
+    pub kind: RawKind,
+    pub range: (usize, usize),
+}
+
+#[derive(Clone, Debug)]
+pub struct RawAttr {
+    pub ns: Option<u16>,
+    pub local: RawStr,
+    pub value: RawStorage,
+    pub range: (usize, usize),
+    pub qname_len: u16,
+    pub eq_len: u8,
+}
+
+#[derive(Clone, Debug)]
+pub struct RawNs {
+    pub name: Option<RawStr>,
+    pub uri: RawStorage,
+}
+
+#[derive(Clone, Debug)]
+pub struct RawDoc {
+    pub text_len: usize,
+    pub has_positions: bool,
+    pub nodes: Vec<RawNode>,
+    pub attrs: Vec<RawAttr>,
+    pub ns_values: Vec<RawNs>,
+    pub ns_tree_order: Vec<u16>,
+    pub ns_sorted_len: usize,
+}
+
+/// Describes `s` relative to the buffer `text`, using addresses only.
+pub fn raw_str(text: &str, s: &str) -> RawStr {
+    let base = text.as_ptr() as usize;
+    let p = s.as_ptr() as usize;
+    if p >= base && p + s.len() <= base + text.len() {
+        RawStr::In(p - base, s.len())
+    } else {
+        RawStr::Out(s.as_bytes().to_vec())
+    }
+}
+
+pub fn raw_storage(text: &str, s: &StringStorage) -> RawStorage {
+    match s {
+        StringStorage::Borrowed(s) => RawStorage::Borrowed(raw_str(text, s)),
+        StringStorage::Owned(s) => RawStorage::Owned(s.as_bytes().to_vec()),
+    }
+}
+
+pub fn raw_dump(doc: &Document) -> RawDoc {
+    let text = doc.text;
+    let nodes = doc
+        .nodes
+        .iter()
+        .map(|n| RawNode {
+            parent: n.parent.map(|id| id.get()),
+            prev_sibling: n.prev_sibling.map(|id| id.get()),
+            next_subtree: n.next_subtree.map(|id| id.get()),
+            last_child: n.last_child.map(|id| id.get()),
+            kind: match n.kind {
+                NodeKind::Root => RawKind::Root,
+                NodeKind::Element {
+                    ref tag_name,
+                    attributes,
+                    namespaces,
+                } => RawKind::Element {
+                    ns: tag_name.namespace_idx.map(|i| i.0),
+                    local: raw_str(text, tag_name.local_name),
+                    attrs: (attributes.start, attributes.end),
+                    nss: (namespaces.start, namespaces.end),
+                },
+                NodeKind::PI(pi) => RawKind::PI {
+                    target: raw_str(text, pi.target),
+                    value: pi.value.map(|v| raw_str(text, v)),
+                },
+                NodeKind::Comment(ref s) => RawKind::Comment(raw_storage(text, s)),
+                NodeKind::Text(ref s) => RawKind::Text(raw_storage(text, s)),
+            },
+            #[cfg(feature = "positions")]
+            range: (n.range.start, n.range.end),
+            #[cfg(not(feature = "positions"))]
+            range: (0, 0),
+        })
+        .collect();
+
+    let attrs = doc
+        .attributes
+        .iter()
+        .map(|a| RawAttr {
+            ns: a.name.namespace_idx.map(|i| i.0),
+            local: raw_str(text, a.name.local_name),
+            value: raw_storage(text, &a.value),
+            #[cfg(feature = "positions")]
+            range: (a.range.start, a.range.end),
+            #[cfg(not(feature = "positions"))]
+            range: (0, 0),
+            #[cfg(feature = "positions")]
+            qname_len: a.qname_len,
+            #[cfg(not(feature = "positions"))]
+            qname_len: 0,
+            #[cfg(feature = "positions")]
+            eq_len: a.eq_len,
+            #[cfg(not(feature = "positions"))]
+            eq_len: 0,
+        })
+        .collect();
+
+    let ns_values = doc
+        .namespaces
+        .values
+        .iter()
+        .map(|ns| RawNs {
+            name: ns.name.map(|n| raw_str(text, n)),
+            uri: raw_storage(text, &ns.uri),
+        })
+        .collect();
+
+    RawDoc {
+        text_len: text.len(),
+        has_positions: cfg!(feature = "positions"),
+        nodes,
+        attrs,
+        ns_values,
+        ns_tree_order: doc.namespaces.tree_order.iter().map(|i| i.0).collect(),
+        ns_sorted_len: doc.namespaces.sorted_order.len(),
+    }
+}
+
+// ----------------------------------------------------------------------------------------
+// Trace of what the tree builder was given, and recursion depth counters.
+
+#[derive(Clone, Debug, PartialEq, Eq)]
+pub enum TokDump {
+    PI(RawStr, Option<RawStr>, (usize, usize)),
+    Comment(RawStr, (usize, usize)),
+    EntityDecl(RawStr, (usize, usize)),
+    ElementStart(RawStr, RawStr, usize),
+    Attribute((usize, usize), u16, u8, RawStr, RawStr, (usize, usize)),
+    EndOpen((usize, usize)),
+    EndClose(RawStr, RawStr, (usize, usize)),
+    EndEmpty((usize, usize)),
+    Text(RawStr, (usize, usize)),
+    Cdata(RawStr, (usize, usize)),
+}
+
+#[derive(Clone, Debug, PartialEq, Eq)]
+pub enum Event {
+    /// A token was delivered to the tree builder (also from inside an entity).
+    Token(TokDump),
+    /// A text fragment was appended: storage, node range.
+    TextFragment(RawStorage, (usize, usize)),
+    /// An attribute value was normalized.
+    AttrValue(RawStorage),
+    /// State of the loop detector after inc_references (0), inc_depth (1), dec_depth (2);
+    /// the flag tells whether the operation succeeded.
+    Loop(u8, bool, u8, u8),
+}
+
+std::thread_local! {
+    static TRACE_ON: Cell<bool> = Cell::new(false);
+    static TRACE: RefCell<Vec<Event>> = RefCell::new(Vec::new());
+    // [current, max] per counter: 0 = parse_content, 1 = _normalize_attribute, 2 = process_text
+    static DEPTH: RefCell<[(u32, u32); 3]> = RefCell::new([(0, 0); 3]);
+}
+
+/// Starts recording on this thread and clears what was recorded before.
+pub fn trace_start() {
+    TRACE_ON.with(|t| t.set(true));
+    TRACE.with(|t| t.borrow_mut().clear());
+    DEPTH.with(|d| *d.borrow_mut() = [(0, 0); 3]);
+}
+
+/// Stops recording and returns the events and the maximal depths.
+pub fn trace_take() -> (Vec<Event>, [u32; 3]) {
+    TRACE_ON.with(|t| t.set(false));
+    let ev = TRACE.with(|t| core::mem::take(&mut *t.borrow_mut()));
+    let d = DEPTH.with(|d| {
+        let d = d.borrow();
+        [d[0].1, d[1].1, d[2].1]
+    });
+    (ev, d)
+}
+
+#[inline]
+fn tracing() -> bool {
+    TRACE_ON.with(|t| t.get())
+}
+
+pub(crate) fn push_event(f: impl FnOnce() -> Event) {
+    if tracing() {
+        let e = f();
+        TRACE.with(|t| t.borrow_mut().push(e));
+    }
+}
+
+fn range(r: &core::ops::Range<usize>) -> (usize, usize) {
+    (r.start, r.end)
+}
+
+pub(crate) fn dump_token(text: &str, token: &Token) -> TokDump {
+    let rs = |s: &str| raw_str(text, s);
+    match token {
+        Token::ProcessingInstruction(t, v, r) => TokDump::PI(rs(t), v.map(rs), range(r)),
+        Token::Comment(t, r) => TokDump::Comment(rs(t), range(r)),
+        Token::EntityDeclaration(n, v) => TokDump::EntityDecl(rs(n), range(&v.range())),
+        Token::ElementStart(p, l, s) => TokDump::ElementStart(rs(p), rs(l), *s),
+        Token::Attribute(r, q, e, p, l, v) => {
+            TokDump::Attribute(range(r), *q, *e, rs(p), rs(l), range(&v.range()))
+        }
+        Token::ElementEnd(ElementEnd::Open, r) => TokDump::EndOpen(range(r)),
+        Token::ElementEnd(ElementEnd::Close(p, l), r) => TokDump::EndClose(rs(p), rs(l), range(r)),
+        Token::ElementEnd(ElementEnd::Empty, r) => TokDump::EndEmpty(range(r)),
+        Token::Text(t, r) => TokDump::Text(rs(t), range(r)),
+        Token::Cdata(t, r) => TokDump::Cdata(rs(t), range(r)),
+    }
+}
+
+pub(crate) fn on_token(text: &str, token: &Token) {
+    push_event(|| Event::Token(dump_token(text, token)));
+}
+
+/// Counts the live activations of a (mutually) recursive function.
+pub(crate) struct DepthGuard(usize);
+
+impl DepthGuard {
+    pub(crate) fn new(counter: usize) -> Self {
+        if tracing() {
+            DEPTH.with(|d| {
+                let mut d = d.borrow_mut();
+                d[counter].0 += 1;
+                if d[counter].0 > d[counter].1 {
+                    d[counter].1 = d[counter].0;
+                }
+            });
+        }
+        DepthGuard(counter)
+    }
+}
+
+impl Drop for DepthGuard {
+    fn drop(&mut self) {
+        if tracing() {
+            DEPTH.with(|d| {
+                let mut d = d.borrow_mut();
+                d[self.0].0 = d[self.0].0.saturating_sub(1);
+            });
+        }
+    }
+}
+
+// ----------------------------------------------------------------------------------------
+// The tokenizer on its own, with a sink that only records.
+
+struct Recorder<'a> {
+    text: &'a str,
+    tokens: Vec<TokDump>,
+}
+
+impl<'a> tokenizer::XmlEvents<'a> for Recorder<'a> {
+    fn token(&mut self, token: Token<'a>) -> Result<(), crate::Error> {
+        self.tokens.push(dump_token(self.text, &token));
+        Ok(())
+    }
+}
+
+/// Runs the tokenizer over a whole document.
+pub fn tokenize(text: &str, allow_dtd: bool) -> (Vec<TokDump>, Result<(), crate::Error>) {
+    let mut rec = Recorder {
+        text,
+        tokens: Vec::new(),
+    };
+    let res = tokenizer::parse(text, allow_dtd, &mut rec);
+    (rec.tokens, res)
+}
+
+/// Runs the content tokenizer over `text[start..end]`, the way an entity value is expanded.
+pub fn tokenize_content(
+    text: &str,
+    start: usize,
+    end: usize,
+) -> (Vec<TokDump>, Result<(), crate::Error>, usize) {
+    let mut rec = Recorder {
+        text,
+        tokens: Vec::new(),
+    };
+    let mut s = tokenizer::Stream::from_substr(text, start..end);
+    let res = tokenizer::parse_content(&mut s, &mut rec);
+    (rec.tokens, res, s.pos())
+}
+
+/// Name and position-carrying flag of every `Error` variant, through `Error::pos`.
+pub fn error_variant(e: &crate::Error) -> String {
+    let s = std::format!("{:?}", e);
+    let end = s.find(|c: char| !(c.is_ascii_alphanumeric())).unwrap_or(s.len());
+    s[..end].into()
+}
